@@ -274,32 +274,45 @@ fn run_scenario(rt: &Arc<tokio::runtime::Runtime>, id: &str, sc: &Scn) -> String
         }
     });
     if closed != "timeout" {
-        // connect() to the old address must fail
-        match TcpStream::connect_timeout(&addr, Duration::from_secs(5)) {
-            Err(_) => ctx.log(Ev::ConnectRefused),
-            Ok(s) => {
-                // Something accepts on that port.  Only the closed server itself
-                // counts: not a TCP self-connection (ephemeral port quirk), not
-                // another server that was given the port meanwhile.
-                let selfconn = match (s.local_addr(), s.peer_addr()) {
-                    (Ok(a), Ok(b)) => a == b,
-                    _ => false,
-                };
-                let ours = if selfconn {
-                    false
-                } else {
-                    let _ = s.set_read_timeout(Some(Duration::from_secs(2)));
+        // connect() to the old address must fail.  If something accepts on that
+        // port, only the closed server itself counts: not a TCP self-connection
+        // (ephemeral-port quirk), not another server that was given the port
+        // meanwhile (it answers GET /id with another id, or 404).  A peer that
+        // accepts but does not answer may be another scenario's server in its own
+        // shutdown phase: retry; only a listener that stays mute for the whole
+        // retry period is reported as "still accepting".
+        let mut verdict = Ev::ConnectAccepted;
+        for _attempt in 0..30 {
+            match TcpStream::connect_timeout(&addr, Duration::from_secs(5)) {
+                Err(_) => {
+                    verdict = Ev::ConnectRefused;
+                    break;
+                }
+                Ok(s) => {
+                    let selfconn = match (s.local_addr(), s.peer_addr()) {
+                        (Ok(a), Ok(b)) => a == b,
+                        _ => false,
+                    };
+                    if selfconn {
+                        verdict = Ev::ConnectRefused;
+                        break;
+                    }
+                    let _ = s.set_read_timeout(Some(Duration::from_millis(400)));
                     let mut s2 = s;
                     let _ = s2.write_all(&get("/id"));
                     match read_one(&s2) {
-                        Some(resp) if resp.well_formed => resp.body == format!("{}", ctx.id).as_bytes(),
-                        // accepted but nobody answers: indistinguishable from a lingering listener
-                        _ => true,
+                        Some(resp) if resp.well_formed => {
+                            if resp.body != format!("{}", ctx.id).as_bytes() {
+                                verdict = Ev::ConnectRefused;
+                            }
+                            break;
+                        }
+                        _ => std::thread::sleep(Duration::from_millis(100)),
                     }
-                };
-                ctx.log(if ours { Ev::ConnectAccepted } else { Ev::ConnectRefused });
+                }
             }
         }
+        ctx.log(verdict);
     }
     for t in readers {
         let _ = t.join();
